@@ -750,7 +750,9 @@ def sym_round(x, k):
         c.add_axiom(f(z3.RealVal(0)) == 0)
         c.add_axiom(_P_GRID(k)(z3.RealVal(0)))
         c.rnd[k] = [(z3.RealVal(0), z3.RealVal(0))]
-    for (a0, r0) in c.rnd.setdefault(k, []):
+    prev = c.rnd.setdefault(k, [])
+    # pairwise monotonicity instances (quadratic): only for the first few terms, always against 0
+    for (a0, r0) in (prev if len(prev) <= 16 else prev[:1]):
         c.add_axiom(z3.Implies(a0 <= x.z, r0 <= r))
         c.add_axiom(z3.Implies(x.z <= a0, r <= r0))
     c.rnd[k].append((x.z, r))
